@@ -47,7 +47,9 @@ def collide(rng, d):
 
 def rule_src(name, decls, cond, flags=""):
     strings = " ".join(decl_yara("s%d" % i, d) for i, d in enumerate(decls))
-    return "%srule %s { strings: %s condition: %s }" % (flags, name, strings, cond)
+    # every string must be referenced (boreal rejects unused strings): add always-false disjuncts
+    refs = "".join(" or #s%d < 0" % i for i in range(len(decls)))
+    return "%srule %s { strings: %s condition: (%s)%s }" % (flags, name, strings, cond, refs)
 
 
 class C12(Prop):
@@ -62,7 +64,7 @@ class C12(Prop):
     RULE = ("rule sets A (1-3 rules, 1-3 text strings each, conditions over counts / offsets / of-expressions) and B "
             "generated to collide with A on atoms: the same strings, the same text under other modifiers, case "
             "variants, prefixes / suffixes, the same atom at another literal offset, an encoding of an A string as "
-            "a plain string, xor ranges; B in the same or another namespace, private or not, never global, never "
+            "a plain string, xor ranges; B in the same or another namespace, never global, never "
             "referenced; every order-preserving interleaving when |A|+|B| <= 4, sampled otherwise. The union is "
             "scanned and compared (verdicts and full match lists) with A alone and B alone; the union's match "
             "lists are compared with the model's shared-automaton scan and with each string's single-string scan. "
@@ -99,11 +101,14 @@ class C12(Prop):
                         d = gen_decl(rng)
                         if d["xor"] is not None and d["xor"][1] - d["xor"][0] > 6:
                             d["xor"][1] = d["xor"][0] + rng.range(0, 6)
+                    d = dict(d)
+                    if d["xor"] is not None and d["xor"][1] - d["xor"][0] > 6:
+                        d["xor"] = [d["xor"][0], d["xor"][0] + rng.range(0, 6)]
                     if len(d["text"]) > 32:
                         d["text"] = d["text"][:32]
                     decls.append(d)
                 rules.append({"name": "%s%d" % (prefix, i), "decls": decls, "cond": rng.choice(CONDS),
-                              "private": prefix == "b" and rng.chance(1, 5)})
+                              "private": False})
             return rules
         nsA = rng.choice([None, "nsA"])
         nsB = rng.choice([nsA, "nsB", None])
@@ -129,14 +134,14 @@ class C12(Prop):
             m += rng.choice(pool)
             if rng.chance(1, 2):
                 m += rng.bytes(rng.range(0, 3), b" .aZ\x00")
-        return {"A": A, "B": B, "nsA": nsA, "nsB": nsB, "order": order, "mem": bytes(m[:240]).hex(),
+        return {"A": A, "B": B, "nsA": nsA, "nsB": nsB, "order": order, "mem": bytes(m[:160]).hex(),
                 "profile": rng.choice(["speed", "memory"]), "params": {}}
 
     def generate(self, ctx, rng, n):
         return [self.gen_case(rng.fork("c%d" % i)) for i in range(n)]
 
     def budget(self, tier):
-        return 500 if tier == "quick" else 10000
+        return 320 if tier == "quick" else 8000
 
     def entries(self, case, which):
         out = []
